@@ -641,7 +641,7 @@ func (ex *Explorer) runOne(sv *Solver, prefix []dec) {
 	in := &Interp{P: ex.P, tb: NewTB(), sv: sv, run: r, globals: map[*ssa.Global]*Cell{},
 		mutexes: map[*Cell]*mutexState{}, wgs: map[*Cell]*wgState{}, onces: map[*Cell]*onceState{}, conds: map[*Cell]*condState{},
 		pools: map[*Cell]*poolState{}, hashMemo: map[string]*Term{}, gobQueues: map[*Cell]*[]Value{},
-		strBuilders: map[*Cell]*strings.Builder{}, funcsSeen: map[*ssa.Function]bool{}}
+		strBuilders: map[*Cell]*strings.Builder{}, funcsSeen: map[*ssa.Function]bool{}, mapOrder: -1}
 	pkg := ex.P.pkgs[job.Pkg]
 	var abort *abortRun
 	if pkg == nil {
